@@ -1,6 +1,7 @@
 import numpy as np
 
 from ...orbits.cov import Cov
+from ...frames.frames import get_frame
 
 
 def load_cov(orb, data):
@@ -12,6 +13,8 @@ def load_cov(orb, data):
 
     if frame in ("RSW", "RTN"):
         frame = "QSW"
+    elif isinstance(frame, str) and frame not in ("QSW", "TNW"):
+        frame = get_frame(frame)
 
     values = [
         [
